@@ -436,9 +436,15 @@ func runR121(c *Ctx) {
 				}
 				for _, l := range loads {
 					for _, r := range *l.Referrers() {
-						switch r.(type) {
+						switch u := r.(type) {
 						case *ssa.MakeInterface, *ssa.DebugRef:
 						case ssa.CallInstruction:
+							// handed to a formatter of the standard library: printing. Handed to a function of the module
+							// (isSetLow(word, code)) the word takes part in a membership test after all
+							if callee := u.Common().StaticCallee(); callee != nil && callee.Pkg != nil && inModule(callee.Pkg.Pkg) {
+								c.bad(key, pos, "a word of the enum bitset selected by an index that is not code>>k is handed to "+callee.Name()+": membership is then tested in that word for every code, and codes outside it (the null code 255 folds onto bit 63 of word 0) alias into it")
+								return
+							}
 						default:
 							c.bad(key, pos, "a word of the enum bitset selected by an index that is not code>>k is used in a computation: membership is then tested in the wrong word for codes outside it (the null code 255 folds onto bit 63 of word 0)")
 							return
